@@ -46,6 +46,59 @@ fn matcher(pattern: &str, multiline: bool) -> Option<grep_regex::RegexMatcher> {
     mb.build(pattern).ok()
 }
 
+/// a consumer that closes the pipe after `limit` bytes: bytes up to the limit are accepted (partial writes
+/// included), every later write fails with BrokenPipe
+struct ClosedAfter { limit: usize, written: usize, refused: bool }
+impl std::io::Write for ClosedAfter {
+    fn write(&mut self, buf: &[u8]) -> std::io::Result<usize> {
+        if self.written >= self.limit && !buf.is_empty() {
+            self.refused = true;
+            return Err(std::io::Error::new(std::io::ErrorKind::BrokenPipe, "Broken pipe (os error 32)"));
+        }
+        let n = buf.len().min(self.limit - self.written);
+        self.written += n;
+        Ok(n)
+    }
+    fn flush(&mut self) -> std::io::Result<()> { Ok(()) }
+}
+
+/// C15: "a consumer closing the output pipe ends the run promptly with status 0 and no diagnostic" --
+/// crates/core/main.rs recognises the closed pipe by `err.kind() == BrokenPipe` on the error returned by the
+/// search, so for EVERY byte position k at which the pipe closes the printers must hand back an error of that
+/// kind (not Ok, not an error of another kind)
+fn check_pipe(pattern: &str, input: &[u8], mode: u32, multiline: bool) -> Option<String> {
+    let full = match actual(pattern, input, mode, multiline) { Ok(g) => g, Err(_) => return None };
+    for k in 0..full.len() {
+        let m = matcher(pattern, multiline)?;
+        let mut searcher = SearcherBuilder::new().line_number(true).multi_line(multiline).build();
+        let (r, refused) = if mode == 3 {
+            let mut p = JSONBuilder::new().always_begin_end(false).build(ClosedAfter { limit: k, written: 0, refused: false });
+            let r = searcher.search_slice(&m, input, p.sink(&m));
+            (r, p.into_inner().refused)
+        } else {
+            let mut b = StandardBuilder::new();
+            b.per_match_one_line(true);
+            match mode {
+                0 => { b.byte_offset(true).column(true); }
+                1 => { b.per_match(true).column(true); }
+                _ => { b.only_matching(true).byte_offset(true).column(true); }
+            }
+            let mut p = b.build(NoColor::new(ClosedAfter { limit: k, written: 0, refused: false }));
+            let r = searcher.search_slice(&m, input, p.sink(&m));
+            (r, p.into_inner().into_inner().refused)
+        };
+        // (the JSON output carries elapsed times, so its length varies by a byte or two between runs: the
+        // criterion is whether the writer actually refused a write, not the position k itself)
+        match r {
+            Err(e) if e.kind() == std::io::ErrorKind::BrokenPipe => {}
+            Err(e) => return Some(format!("the pipe closes after {} bytes: the search returns an error of kind {:?} ({}), not BrokenPipe, so the run would report it and exit with status 2", k, e.kind(), e)),
+            Ok(()) if refused => return Some(format!("the pipe closes after {} bytes: a write was refused but the search returns Ok, the write error was swallowed", k)),
+            Ok(()) => {}
+        }
+    }
+    None
+}
+
 /// what ripgrep prints (real code)
 fn actual(pattern: &str, input: &[u8], mode: u32, multiline: bool) -> Result<Vec<u8>, String> {
     let m = match matcher(pattern, multiline) { Some(m) => m, None => return Err("SKIP".into()) };
@@ -124,6 +177,9 @@ fn check(pattern: &str, re: &regex::bytes::Regex, input: &[u8], mode: u32, multi
     // skip inputs on which a match really spans a line terminator (only possible for the last pattern)
     if re.find_iter(input).any(|m| input[m.start()..m.end()].contains(&b'\n')) {
         return None;
+    }
+    if std::env::var("VERIF_PRINT_PIPE").is_ok() {
+        return check_pipe(pattern, input, mode, multiline);
     }
     let ls = lines_of(input);
     // Listed known finding: with -U, adjacent matching lines reach the printer as ONE block and the column
